@@ -282,7 +282,8 @@ impl C15 {
             ctx.eval();
             let mut longer = img.clone();
             longer.extend_from_slice(&[0x5A; 24]);
-            let reg = Region::new(ctx.placement, &longer);
+            let min = if t < 7 { round8(8 + 4 * t) } else if t >= 7 + 2 * NDST { crate::spec::sized_view_size(id).unwrap_or(0) } else { 0 };
+            let reg = Region::new_slack(ctx.placement, &longer, min);
             let r = catch(|| -> (usize, Option<(usize, usize)>) {
                 let g = DynSizedStructure::<TagHeader>::ref_from_slice(reg.as_slice()).expect("valid tag bytes");
                 let gs = core::mem::size_of_val(g);
